@@ -271,14 +271,14 @@ func c06Run(r *Run, hp, kind string) {
 				saveBase, saveView, savePre := base, view, pre
 				base, view, pre = mid, midView, midPre
 				for bi, body := range bodies {
-					for ci, cl := range append(pats, Zero32) {
+					for ci, cl := range append(append([][]byte{}, pats...), Zero32, nil) {
 						a := MkReplaceMessage(s.Str, origSend, Attest(origSend, signers), body, cl, "own message")
 						a.Desc = fmt.Sprintf("replaceMessage(dst=%d,body#%d,caller#%d) by %s", d, bi, ci, s.Name)
 						check(a)
 					}
 				}
 				for ri, rc := range pats {
-					for ci, cl := range append(pats, Zero32) {
+					for ci, cl := range append(append([][]byte{}, pats...), Zero32, nil) {
 						a := MkReplaceDeposit(s.Str, origDep, Attest(origDep, signers), cl, rc, "own deposit")
 						a.Desc = fmt.Sprintf("replaceDeposit(dst=%d,recipient#%d,caller#%d) by %s", d, ri, ci, s.Name)
 						o, p, ok := check(a)
